@@ -357,6 +357,45 @@ def multi_doc_union_orders(pane, res):
                                    f"the other way round) returned {got!r}, expected {want!r}", cell, 3)
 
 
+def reader_histories(pane, res):
+    """Sequences of reader calls on the same texts: what one reader does (to the YAML loader it shares with the others, say) must not
+    change what a later one returns.  Every result is compared with the first result of the same (reader, text, type)."""
+    import datetime
+    texts = ['--- 2020-01-02\n--- a\n', '--- [2020-01-02, 1]\n', '--- {d: 2020-01-02}\n--- 3\n', '--- yes\n--- 1_000\n--- 0x10\n']
+    types_ = [t.Any, t.Union[str, datetime.date, int, bool, t.List[t.Any], t.Dict[str, t.Any]]]
+
+    def read_all(text, T):
+        return pane.from_yaml_all(io.StringIO(text), T)
+
+    def read_one(text, T):
+        return pane.from_yaml(io.StringIO(text.split('\n--- ')[0] + '\n'), T)
+
+    readers = {'from_yaml_all': read_all, 'from_yaml': read_one, 'from_json': lambda text, T: pane.from_json(io.StringIO('[1, "2020-01-02"]'), T)}
+    first: t.Dict[t.Any, t.Any] = {}
+    for seq in itertools.product(readers, repeat=3):
+        hist = []
+        for name in seq:
+            hist.append(name)
+            for ti, text in enumerate(texts):
+                for yi, T in enumerate(types_):
+                    res['states'] += 1
+                    res['evals'] += 1
+                    res['validated'] += 1
+                    res['transitions'] += 1
+                    try:
+                        got = ('ok', values.ckey(readers[name](text, T)))
+                    except Exception as e:  # noqa
+                        got = ('raised', type(e).__name__)
+                    key = (name, ti, yi)
+                    if key not in first:
+                        first[key] = (got, list(hist))
+                    elif first[key][0] != got:
+                        core.add_violation(res, {'kind': 'reader_result_depends_on_earlier_reads', 'reader': name},
+                                           f"{name} of {text!r} as {'Any' if yi == 0 else 'a union'} after the calls {hist[:-1]} gives {got!r}; "
+                                           f"the first time (after {first[key][1][:-1]}) it gave {first[key][0]!r}", {'reader_histories': True}, len(hist))
+    res['nontrivial'].add('reader_histories')
+
+
 def failing_read_closes(pane, res, tmp):
     """Paths are closed even when the conversion fails."""
     from pane.errors import ConvertError
@@ -437,6 +476,7 @@ def run_shard(shard, tier):
             multi_doc(pane, res, pool, tmp)
             failing_read_closes(pane, res, tmp)
             multi_doc_union_orders(pane, res)
+            reader_histories(pane, res)
             res['samples'].append({'multi_document_history': ['write_yaml(3)', 'write_yaml(None)', 'seek(0)', 'from_yaml_all -> [3, None]']})
         else:
             run_value(pane, res, shard['vi'], tier, tmp)
@@ -458,6 +498,7 @@ def replay(cell):
             multi_doc(pane, res, pool, tmp)
             failing_read_closes(pane, res, tmp)
             multi_doc_union_orders(pane, res)
+            reader_histories(pane, res)
             out = [v for lst in res['violations'].values() for v in lst]
             return [v for v in out if v['cell'] == cell] or out
         run_value(pane, res, cell['vi'], 'thorough', tmp, only=(cell['fmt'], cell['sink'], cell['source'], cell['opts']))
